@@ -48,6 +48,8 @@ ASSUMPTIONS = [
     'wavenumber is empty',
     'include_vertical_advection is left at its default (True): switching it off removes the T\' half of a term whose '
     'T_ref half stays, which is a different equation set, not a different split',
+    'grids have M >= 3 (with L = M = 2 the admissible spectrum l <= L-2 contains only the mean) and a single sigma layer '
+    'is drawn 1 time in 8 (all profiles are then trivially constant)',
     'humidity amplitudes are capped (|q| well below 1) so that 1 + (cp_v/cp - 1) q stays away from zero',
     'the same physics constants, orography and sigma levels are used on both sides; only T_ref and T\' change',
 ]
@@ -71,13 +73,21 @@ MANIFEST = {
 
 @st.composite
 def _profile(draw, n):
-  kind = draw(st.sampled_from(['constant', 'linear', 'random', 'random']))
+  kind = draw(st.sampled_from(['random', 'random', 'linear', 'constant']))    # simplest example = varying profile
   if kind == 'constant' or n == 1:
     return [float(draw(st.integers(150, 350)))] * n
   if kind == 'linear':
     top, bottom = draw(st.integers(150, 300)), draw(st.integers(200, 350))
     return [float(v) for v in np.round(np.linspace(top, bottom, n), 3)]
   return [float(draw(st.integers(150, 350))) for _ in range(n)]
+
+
+@st.composite
+def _levels(draw, max_layers):
+  """Sigma boundaries; >= 2 uneven layers are the simplest example, a single layer is drawn 1 time in 8."""
+  if draw(st.sampled_from([False] * 7 + [True])):
+    return [0.0, 1.0]
+  return draw(gens.sigma_boundaries(2, max_layers, kinds=('uneven', 'uneven', 'hybrid', 'equidistant')))
 
 
 def _tracer_names(cls, extra):
@@ -94,13 +104,17 @@ def _case(draw, tier, cls=None):
   big = tier == 'thorough'
   cls = cls or draw(st.sampled_from(list(CLASSES)))
   kind = 'quadratic' if cls in ('moist', 'cloud') else draw(st.sampled_from(['vector', 'quadratic']))
-  g = draw(gens.grid_configs(kind=kind, min_m=2, max_m=12 if big else 7, spacings=('gauss', 'gauss', 'equiangular'),
+  g = draw(gens.grid_configs(kind=kind, min_m=3, max_m=12 if big else 7, spacings=('gauss', 'gauss', 'equiangular'),
                              allow_radius=False, max_slack=3))
   g['radius'] = draw(st.sampled_from([None, 1.0, 2.5, 0.4]))
-  b = draw(gens.sigma_boundaries(1, 8 if big else 4))
+  b = draw(_levels(8 if big else 4))
   n = len(b) - 1
   t1 = draw(_profile(n))
   t2 = draw(_profile(n))
+  if all(abs(a - b) <= 1.0 for a, b in zip(t1, t2)):     # identical profiles say nothing: move the second one
+    t2 = [b + 13.0 for b in t2]
+  elif sum(abs(a - b) > 1.0 for a, b in zip(t1, t2)) < min(2, n):
+    t2 = [b + (13.0 if abs(a - b) <= 1.0 else 0.0) for a, b in zip(t1, t2)]
   extra = draw(st.sampled_from([[], [], ['a'], ['a', 'ozone']]))
   cfg = {
       'cls': cls, 'alias_rule': kind, 'grid': g, 'boundaries': b, 't_ref1': t1, 't_ref2': t2,
@@ -312,14 +326,14 @@ def _matrix(tier):
   grid_r = {'M': 4, 'L': 5, 'nlon': 12, 'nlat': 8, 'spacing': 'gauss', 'impl': 'real', 'offset': 0.0, 'radius': None}
   grid_f = {'M': 5, 'L': 6, 'nlon': 15, 'nlat': 18, 'spacing': 'equiangular', 'impl': 'fast', 'offset': 0.0,
             'radius': 2.5, 'bsm': 2, 'stacked': None, 'reverse': None, 'precision': 'float32'}
-  profiles = [([250.0, 250.0, 250.0], [290.0, 290.0, 290.0]),
+  profiles = [([200.0, 230.0, 310.0], [320.0, 180.0, 260.0]),
               ([288.0, 288.0, 288.0], [210.0, 250.0, 300.0]),
-              ([200.0, 230.0, 310.0], [320.0, 180.0, 260.0])]
+              ([250.0, 250.0, 250.0], [290.0, 290.0, 290.0])]
   k = 0
-  for cls in CLASSES:
-    for pi, (t1, t2) in enumerate(profiles):
-      for oro in (0.0, 1.0):
-        for cloud_amp in ((0.0, 1.0) if cls == 'cloud' else (0.0,)):
+  for pi, (t1, t2) in enumerate(profiles):
+    for oro in (0.0, 1.0):
+      for cls in CLASSES:       # classes innermost: a budget-truncated run still sees every class early
+        for cloud_amp in ((1.0, 0.0) if cls == 'cloud' else (0.0,)):
           k += 1
           g = grid_f if (pi + int(oro)) % 2 else grid_r
           cfg = {'cls': cls, 'alias_rule': 'quadratic', 'grid': g,
@@ -335,15 +349,15 @@ def _matrix(tier):
 
 SUBCHECKS = [
     Subcheck('tref_invariance', run_tref, strategy=lambda tier: _case(tier),
-             examples={'quick': 96, 'thorough': 800}, shards={'quick': 4, 'thorough': 10},
-             wall={'quick': 170.0, 'thorough': 1500.0},
+             examples={'quick': 96, 'thorough': 400}, shards={'quick': 4, 'thorough': 10},
+             wall={'quick': 420.0, 'thorough': 1500.0},
              rule='non-trivial = T_ref profiles differ by > 1 K on >= 2 levels and a state has non-zero divergence and '
                   'non-zero grad(lnps)',
              doc='explicit+implicit of the same physical atmosphere under two reference profiles, all four classes; '
                  'cloud class with non-zero cloud tracers must show exactly the predicted known residual', weight=3),
     Subcheck('tref_invariance_matrix', run_tref, cases=_matrix,
              examples={'quick': 0, 'thorough': 0}, shards={'quick': 2, 'thorough': 2},
-             wall={'quick': 170.0, 'thorough': 600.0},
+             wall={'quick': 420.0, 'thorough': 600.0},
              rule='non-trivial = as tref_invariance (every case of the fixed matrix is)',
              doc='fixed cross product class x profile kinds x orography x cloud content on two small grids', weight=1),
 ]
